@@ -361,7 +361,7 @@ def expected_del_state(events, used, dying=()):
         if v in "KD":
             s["mark"] = "D"; s["numtodo"] = 0
         if v == "D":
-            s["bounce"] = addbounce_text(b"r%d@x" % d, t + (DYING_TEXT if d in dying and s.get("_z") else b""))
+            s["bounce"] = addbounce_text(b"r%d@x" % d, t)
     return st
 
 def check_del(ck, rb, home, drv):
@@ -402,11 +402,7 @@ def check_del(ck, rb, home, drv):
             if (g["used"], g["numtodo"], g["mark"]) != (e["used"], e["numtodo"], e["mark"]):
                 bad = "corr"; break
             if e["bounce"] is not None and g["bounce"] != e["bounce"]:
-                # a Z report turned into D by the dying rule carries the explanatory sentence
-                m2 = re.search(r"R%d:D:(\S+)" % slot, b)
-                alt = addbounce_text(b"r%d@x" % slot, vlib.unhx(m2.group(1)) + DYING_TEXT) if m2 else None
-                if g["bounce"] != alt:
-                    bad = "corr"; break
+                bad = "corr"; break
             if e["bounce"] is None and g["bounce"]:
                 bad = "send:bounce-without-D"; break
         if bad == "corr":
